@@ -309,6 +309,7 @@ func runCheck(id, tier, repo, keep string, writeEvidence bool) int {
 	solverSeconds := 0.0
 	var samples []oblReport
 	var failed []oblReport
+	var slow []string
 	exit := 0
 	unitFailed := map[*Unit]bool{}
 	for _, o := range all {
@@ -342,6 +343,9 @@ func runCheck(id, tier, repo, keep string, writeEvidence bool) int {
 		if o.Holds() {
 			discharged++
 			perBackend[o.Res.Solver]++
+			if o.Res.Seconds > 2.5 {
+				slow = append(slow, fmt.Sprintf("%.1fs %s", o.Res.Seconds, o.Name))
+			}
 			if len(samples) < 6 && (o.Kind == "ensures" || o.Kind == "invariant" || len(samples) < 2) {
 				rep.Runs = nil
 				samples = append(samples, rep)
@@ -443,6 +447,7 @@ func runCheck(id, tier, repo, keep string, writeEvidence bool) int {
 			"contract_files":           relFiles(eng.contractFiles),
 			"assume_count":             eng.cs.Assumes,
 			"bounded":                  boundedReps,
+			"slow_obligations":         slow,
 		}
 		if ps.Explanation != "" {
 			cov["explanation"] = ps.Explanation
@@ -462,6 +467,9 @@ func runCheck(id, tier, repo, keep string, writeEvidence bool) int {
 		if err := os.WriteFile(filepath.Join(verifDir, "evidence", id+".json"), eb, 0o644); err != nil {
 			return engineError(id, "cannot write evidence: %v", err)
 		}
+	}
+	for _, sl := range slow {
+		fmt.Printf("SLOW: property=%s %s\n", id, sl)
 	}
 	fmt.Printf("property=%s tier=%s obligations=%d discharged=%d known-findings=%d violations=%d wall=%.1fs\n", id, tier, total, discharged, knownHit, violations, time.Since(start).Seconds())
 	return exit
